@@ -750,6 +750,19 @@ def wl_backjump(times: int = 1, max_jumps: int | None = None, sibling: bool = Fa
     return workflow(st, context=ctx)
 
 
+def wl_sidejump(times: int = 1) -> Workflow:
+    """a -> {b, c, x}; j <- {b, c}; x (a parallel branch that j does not depend on) jumps back to a."""
+    return workflow(
+        [
+            stage("a"),
+            stage("b", ["a"]),
+            stage("c", ["a"]),
+            stage("x", ["a"], tasks={"t1": {"kind": "jump", "target": "a", "times": times}}),
+            stage("j", ["b", "c"]),
+        ]
+    )
+
+
 def wl_joinjump(times: int = 1) -> Workflow:
     """a -> {b1, b2} -> c (a join that jumps back to a `times` times) -> z."""
     return workflow(
@@ -838,6 +851,7 @@ WORKLOADS: dict[str, Callable[[], Workflow]] = {
     "selfloop2": lambda: wl_selfloop(2),
     "backjump1": lambda: wl_backjump(1),
     "backjump2": lambda: wl_backjump(2),
+    "sidejump": wl_sidejump,
     "backjump1sib": lambda: wl_backjump(1, sibling=True),
     "fwdjump": wl_forward_jump,
     "joinjump": wl_joinjump,
